@@ -98,7 +98,7 @@ def malformed(rng, tier):
         out.append(("trunc:" + name, [f[:n] for n in range(0, len(f) + 1, step)]))
         # byte-level lies at every position of the first 120 bytes (headers and TLV heads)
         fr = []
-        lim = min(len(f), 120 if tier == "quick" else 400)
+        lim = min(len(f), 230 if tier == "quick" else 400)     # 230: past the fixed part of every seed request over IPv6
         for i in range(14, lim):
             for v in (LIES if tier == "thorough" else (0, 0xff, 0x80)):
                 if f[i] != v:
